@@ -119,6 +119,30 @@ def forestProba (nClasses : Nat) (members : List Mat) : Except Err Mat :=
       .ok ((scaleMat ((m :: ms).length : Rat) (sumMats m ms)).map (fun r => List.replicate nClasses (r.headD 0)))
     else .error .value
 
+/-- the loop `for i, cls in enumerate(estimator.classes_): aligned[:, class_dictionary_[cls]] = probas[:, i]`
+on one row: member classes still to place, the member's remaining entries, the row built so far -/
+def scatter (classes : List Label) : List Label → Row → Row → Except Err Row
+  | [], _, acc => .ok acc
+  | _ :: _, [], _ => .error .index
+  | cls :: mc, v :: vs, acc =>
+    match idxOf classes cls with
+    | none => .error .key
+    | some j => scatter classes mc vs (acc.set j v)
+
+/-- `SupervisedTimeSeriesForest._predict_proba_for_estimator` (after fix 47093f5): a tree whose bag missed
+classes returns fewer columns than `n_classes`; its columns are put where the ensemble's `classes_` expect
+them, the classes it never saw get 0.  `mc` = the tree's own `classes_`. -/
+def alignRow (classes mc : List Label) (row : Row) : Except Err Row :=
+  if row.length = classes.length then .ok row else scatter classes mc row (List.replicate classes.length 0)
+
+def stsfAlign (classes mc : List Label) (M : Mat) : Except Err Mat := M.mapM (alignRow classes mc)
+
+/-- `SupervisedTimeSeriesForest.predict_proba`: align every tree, then average -/
+def stsfProba (classes : List Label) (members : List (List Label × Mat)) : Except Err Mat :=
+  match members.mapM (fun m => stsfAlign classes m.1 m.2) with
+  | .error e => .error e
+  | .ok ms => forestProba classes.length ms
+
 /-- number of columns of a matrix (0 for a matrix without rows) -/
 def firstWidth : Mat → Nat
   | [] => 0
@@ -191,6 +215,28 @@ def cbossProba (classes : List Label) (n : Nat) (members : List (List Label × R
 /-- `IndividualBOSS` / `IndividualTDE.predict_proba`: `dists[i, class_dictionary.get(preds[i])] += 1` -/
 def indivProba (classes : List Label) (preds : List Label) : Except Err Mat :=
   preds.mapM (fun l => voteRow classes [(l, 1)] (zeros classes.length))
+
+/-- `0.000000001`, the floor of a member weight (fix 94648e4) -/
+def weightFloor : Rat := 1 / 1000000000
+
+/-- cBOSS / TDE `fit`: `weight = math.pow(accuracy, 4)`, `if weight == 0: weight = 0.000000001`
+(`accuracy` may be `-1` when the train estimate was abandoned early) -/
+def memberWeight (acc : Rat) : Rat :=
+  let w := acc * acc * acc * acc
+  if w = 0 then weightFloor else w
+
+/-- the ensemble as `fit` leaves it: member `t` predicts `preds_t` and votes with `memberWeight(accuracy_t)` -/
+def cbossFitted (members : List (List Label × Rat)) : List (List Label × Rat) :=
+  members.map (fun m => (m.1, memberWeight m.2))
+
+/-- the window sizes searched: `range(min_window, max_window + 1, win_inc)` (`win_inc ≥ 1`) -/
+def windowSizes (minW maxW inc : Nat) : List Nat :=
+  ((List.range (maxW + 1 - minW)).filter (fun k => k % inc == 0)).map (minW + ·)
+
+/-- BOSS / cBOSS / TDE `fit` (after fix 94648e4): `if self.min_window > max_window: raise ValueError`,
+`max_window = int(series_length * max_win_len_prop)` (here `max_win_len_prop = 1`) -/
+def windowCheck (minW maxW : Nat) : Except Err Unit :=
+  if minW > maxW then .error .value else .ok ()
 
 /-- maximum of a non-empty row -/
 def rowMax : Rat → List Rat → Rat
